@@ -7,6 +7,7 @@ CONSTANTS
   Witness = "none"
   MaxId = 7
   MaxJobs = 1
+  MaxFault = 0
   MaxCrash = 0
   Forge = {p3}
   TamperOn = TRUE
